@@ -7819,6 +7819,11 @@ func (l *Lowerer) lowerConstruct(cons *parser.ConstructExpr, target *[]ir.Statem
 	typeExplicit := true
 	typeHandle, err := l.resolveType(cons.Type)
 	if err != nil {
+		// Only a constructor without template arguments (vec3(..), mat2x2(..))
+		// is inferred from its arguments; vec2<Nope>(..) is an error.
+		if nt, ok := cons.Type.(*parser.NamedType); ok && len(nt.TypeParams) > 0 {
+			return 0, err
+		}
 		typeExplicit = false
 	}
 
